@@ -683,6 +683,7 @@ RULES = [rule_r1, rule_r2, rule_r3, rule_r4, rule_r5, rule_r6, rule_r7, rule_r8,
 from ..selftest import M, T, V  # noqa: E402
 
 selftest = [
+    M("empty-chunk", "task.py", "        if data and self.has_body:", "        if self.has_body:", "R3"),
     M("keepalive-without-length", "task.py", "                if not content_length_header or self.close_on_finish:\n                    self.set_close_on_finish()\n                else:\n                    self.response_headers.append((\"Connection\", \"Keep-Alive\"))", "                self.response_headers.append((\"Connection\", \"Keep-Alive\"))", "R1"),
     M("keepalive-when-closing", "task.py", "if not content_length_header or self.close_on_finish:", "if not content_length_header:", "R1"),
     M("chunked-for-204", "task.py", "                if self.has_body:\n                    self.response_headers.append((\"Transfer-Encoding\", \"chunked\"))\n                    self.chunked_response = True", "                if True:\n                    self.response_headers.append((\"Transfer-Encoding\", \"chunked\"))\n                    self.chunked_response = True", "R1"),
